@@ -78,10 +78,20 @@ def replay_vectors(ctx, vectors, pmod):
                 continue
             stub.L = v["L"]
             wscut = v["cutn"] / v["cutd"]
-            wspd = v["A"] / AGEFAC
+            wspd, wdir_, dpt_ = v["A"] / AGEFAC, float(v["wd"]), DEPTH
+            if v["A"] == 0:
+                # an empty wave-age mask is also what a MISSING wind gives (no bin's celerity is below a component that is not a
+                # number): every third such vector is realised with NaN wind speed, wind direction or depth instead of a calm
+                k = ctx.rng.randrange(6)
+                if k == 0:
+                    wspd = float("nan")
+                elif k == 1:
+                    wspd, wdir_ = 25.0, float("nan")
+                elif k == 2:
+                    wspd, dpt_ = 25.0, float("nan")
             calls = {
-                "ptm1": lambda: pmod.np_ptm1(E, E, freq, dirs, wspd, float(v["wd"]), DEPTH, AGEFAC, wscut, v["req"], 100),
-                "ptm2": lambda: pmod.np_ptm2(E, E, freq, dirs, wspd, float(v["wd"]), DEPTH, AGEFAC, wscut, v["req"], 100),
+                "ptm1": lambda: pmod.np_ptm1(E, E, freq, dirs, wspd, wdir_, dpt_, AGEFAC, wscut, v["req"], 100),
+                "ptm2": lambda: pmod.np_ptm2(E, E, freq, dirs, wspd, wdir_, dpt_, AGEFAC, wscut, v["req"], 100),
                 "ptm3": lambda: pmod.np_ptm3(E, E, freq, dirs, v["req"], 100),
             }
             for name, fn in calls.items():
